@@ -144,6 +144,16 @@ def build_routes(tuples):
               ('from_labels(GO)+appends', lambda: _go_by_append(tuples)),
               ('selection-of-larger', lambda: sf.IndexHierarchy.from_labels(tuples + [(('zz',) + tuples[-1][1:])]).iloc[:len(tuples)]),
               ('from_type_blocks(values)', lambda: sf.IndexHierarchy.from_labels(tuples).iloc[list(range(len(tuples)))])]
+    if depth == 3 and isinstance(tuples[0][1], np.datetime64):
+        # labels delivered as columns of a Frame, the dates as TEXT in an object column, converted by a per-depth index constructor
+        def from_frame_columns(obj_dtype):
+            k1 = np.array([str(t[1]) for t in tuples], dtype=object if obj_dtype else None)
+            f = sf.Frame.from_fields((np.array([t[0] for t in tuples]), k1, np.array([t[2] for t in tuples]), np.arange(len(tuples))), columns=('k0', 'k1', 'k2', 'v'))
+            return f.set_index_hierarchy(['k0', 'k1', 'k2'], index_constructors=(sf.Index, sf.IndexDate, sf.Index), drop=True).index
+        routes.append(('set_index_hierarchy(index_constructors, text dates)', lambda: from_frame_columns(False)))
+        routes.append(('set_index_hierarchy(index_constructors, object dates)', lambda: from_frame_columns(True)))
+        routes.append(('from_labels(index_constructors, text dates)', lambda: sf.IndexHierarchy.from_labels([(t[0], str(t[1]), t[2]) for t in tuples],
+                                                                                                             index_constructors=(sf.Index, sf.IndexDate, sf.Index))))
     if depth == 2:
         tree = {}
         for o, i in tuples:
@@ -321,6 +331,8 @@ def go_events(seed):
            ('extend', (pool[1], pool[0]))]
     ev += [('read', r) for r in READS]
     ev += [('derive', 'static')]
+    # extended with a GROW-ONLY hierarchy that then grows on its own: from then on two separate indices
+    ev += [('extend-go-then-grow-the-argument', (('x', 7) + (('q',) if len(pool[0]) == 3 else ()), ('x', 8) + (('q',) if len(pool[0]) == 3 else ())))]
     return ev
 
 
@@ -381,6 +393,18 @@ def run_history(case, ctx):
                     if ok:
                         model.extend(vals)
                     # a refusal (valid or not) must leave the index as it was: checked below by the full comparison
+                elif op == 'extend-go-then-grow-the-argument':
+                    vals = list(arg)
+                    if not tree_ordered(model + vals):
+                        continue
+                    other = sf.IndexHierarchyGO.from_labels(vals)
+                    try:
+                        go.extend(other)
+                    except Exception:
+                        continue
+                    model.extend(vals)
+                    other.append(vals[-1][:-1] + (99,) if not isinstance(vals[-1][-1], str) else vals[-1][:-1] + ('zz',))
+                    derived.append((other, vals + [vals[-1][:-1] + ((99,) if not isinstance(vals[-1][-1], str) else ('zz',))]))
                 elif op == 'derive':
                     derived.append((sf.IndexHierarchy(go), list(model)))
                 else:
